@@ -180,3 +180,19 @@ package expr
 //@   ensures lerr == nil && len(l) == 1 && fromOk(l[0]) && isDecimalV(a) ==> err == nil && len(res) == 1 && res[0] == mkDec(0.0 - decOf(a))
 //@   ensures lerr == nil && len(l) == 1 && !fromOk(l[0]) ==> is(err, ErrInvalidType)
 //@   assigns nothing
+//
+// C10/C07: the indexer c[n] is positional: the item at n, or empty outside [0, count)
+//@ func (e *IndexExpression) Evaluate(ctx, input) (res, err)
+//@   requires e != nil && ctx != nil && e.Index != nil
+//@   let K = ctx.ExternalConstants
+//@   let N = ctx.Now
+//@   let ix = evalRes(e.Index, K, N, input)
+//@   let ixerr = evalErr(e.Index, K, N, input)
+//@   let v = fromS(ix[0])
+//@   ensures ixerr != nil ==> err != nil
+//@   ensures ixerr == nil && len(ix) == 0 ==> err == nil && len(res) == 0
+//@   ensures ixerr == nil && len(ix) > 1 ==> is(err, ErrNotSingleton)
+//@   ensures ixerr == nil && len(ix) == 1 && fromOk(ix[0]) && isInteger(v) && 0 <= intOf(v) && intOf(v) < len(input) ==> err == nil && len(res) == 1 && res[0] == input[intOf(v)]
+//@   ensures ixerr == nil && len(ix) == 1 && fromOk(ix[0]) && isInteger(v) && (intOf(v) < 0 || intOf(v) >= len(input)) ==> err == nil && len(res) == 0
+//@   ensures ixerr == nil && len(ix) == 1 && fromOk(ix[0]) && !isInteger(v) ==> is(err, ErrInvalidType)
+//@   assigns nothing
